@@ -8,10 +8,16 @@ def add(x, y):
 WORLD = None
 
 
-def scripted(name, key=""):
+#: concurrency key token -> the two key arguments.  Different keys share components on purpose, so
+#: that "all key pairs match" (AND) and "some key pair matches" (OR) give different answers.
+KEY_ARGS = {"": (0, 0), "A": (1, 1), "B": (1, 2), "C": (2, 2)}
+KEY_OF = {v: k for k, v in KEY_ARGS.items()}
+
+
+def scripted(name, ka=0, kb=0):
     """Body driven by the scenario: returns a value or raises, per execution number."""
     return WORLD.body()
 
 
-def scripted_args(key="", other=0):
+def scripted_args(ka=0, kb=0):
     return WORLD.body()
